@@ -463,6 +463,14 @@ def r9_radix_needs_digit(run, F, A):
     RADIX_LETTER = {16: 120, 2: 98}
     b = A.body
     n = 0
+    # the suffix accumulator, by role: the local whose address is handed to parse_integer_suffix
+    suffix_lids = set()
+    for c in hirq.calls(b["hir"]):
+        if (hirq.callee(c) or "").endswith("::parse_integer_suffix"):
+            for x in walk(c["a"][0]):
+                if x.get("k") == "Path" and x.get("rk") == "Local":
+                    suffix_lids.add(x.get("lid"))
+    run.require(len(suffix_lids) >= 1, "the argument of parse_integer_suffix is not a local")
     for m in hirq.matches(b["hir"]):
         sc = hirq.unwrap_trivial(m["scrut"])
         if sc.get("k") != "Call" or not (hirq.callee(sc) or "").endswith("::from_str_radix") or len(sc.get("a", [])) != 2:
@@ -475,7 +483,7 @@ def r9_radix_needs_digit(run, F, A):
         pushed = []
         for a in empty_arms:
             for x in walk(a["body"]):
-                if x.get("k") == "MethodCall" and x.get("name") == "push" and hirq.local_name_of(hirq.unwrap_trivial(x["recv"])) == "suffix":
+                if x.get("k") == "MethodCall" and x.get("name") == "push" and hirq.unwrap_trivial(x["recv"]).get("lid") in suffix_lids:
                     pushed.append(hirq.unwrap_trivial(x["a"][0]).get("v"))
         lenient = []
         for a in m["arms"]:
